@@ -653,7 +653,17 @@ static void run_sign_case(struct rng *r, long c, int maxhops)
 			want = RTR_BGPSEC_WRONG_SEGMENT_COUNT;
 			break;
 		}
-		b = to_lib(&sub, kind == 5 ? sub.n : sub.n - 1); /* sigs_len == path_len is wrong for signing */
+		/* signing needs exactly one Secure_Path Segment more than Signature Segments: any other count, in either
+		 * direction, is wrong */
+		int nsigs = sub.n - 1;
+
+		if (kind == 5) {
+			nsigs = (int)rndn(r, (uint32_t)sub.n); /* 0 .. n-1 */
+			if (nsigs == sub.n - 1)
+				nsigs = sub.n;
+			cntf(1, "c12/negative/wrong-segment-count/%s", nsigs > sub.n - 1 ? "too-many-signatures" : "too-few-signatures");
+		}
+		b = to_lib(&sub, nsigs);
 		rc = rtr_mgr_bgpsec_generate_signature(b, bad, &ns);
 		CNT("c12/negative_cases");
 		cntf(1, "c12/negative/%s", lbl);
